@@ -298,6 +298,20 @@ func (e *lowerEng) lower0(v ssa.Value, depth int) bool {
 				}
 			}
 			return n > 0
+		case *ssa.FreeVar:
+			// a variable of the enclosing function captured by reference: every store into the captured cell
+			if cell, ok := resolveCapture(a).(*ssa.Alloc); ok {
+				n := 0
+				for _, ref := range *cell.Referrers() {
+					if s, ok := ref.(*ssa.Store); ok && s.Addr == ssa.Value(cell) {
+						n++
+						if !e.isLower(s.Val, depth+1) {
+							return false
+						}
+					}
+				}
+				return n > 0
+			}
 		}
 		return false
 	case *ssa.Extract:
